@@ -49,6 +49,31 @@ func verifEntries(resp *Response) []verifEntry {
 	return out
 }
 
+// VerifEntry / VerifEntriesOf: the flattened propstats of a response for
+// harnesses of other packages. Name is the element name (for an outgoing
+// typed value: the name it marshals under).
+type VerifEntry struct {
+	Code int
+	Name xml.Name
+	Val  interface{}
+}
+
+func VerifEntriesOf(resp *Response) []VerifEntry {
+	var out []VerifEntry
+	for _, e := range verifEntries(resp) {
+		ve := VerifEntry{Code: e.code, Name: e.name, Val: e.val}
+		if e.val != nil {
+			if g, ok := e.val.(interface{ GetXMLName() xml.Name }); ok {
+				ve.Name = g.GetXMLName()
+			} else if n, err := valueXMLName(e.val); err == nil {
+				ve.Name = n
+			}
+		}
+		out = append(out, ve)
+	}
+	return out
+}
+
 func symXMLName(tag string) xml.Name {
 	return xml.Name{Space: vrt.Str(tag + "-space"), Local: vrt.Str(tag + "-local")}
 }
